@@ -123,6 +123,14 @@ class ConstructPipeline(RewritePattern):
         if len(stages) < 2:
             return
 
+        # only the buffers of a stage are passed on through the pipeline index operation,
+        # other values computed in the loop (e.g. an index passed on as a scalar) are not
+        for stage in stages:
+            for operation in stage:
+                for operand in operation.operands:
+                    if not isinstance(operand.type, MemRefType) and op.body.block.is_ancestor(operand.owner):
+                        return
+
         # the unrolled pipeline is only correct for loops with lb 0 and step 1, that
         # run for at least (nb_stages - 1) iterations to fill up the pipeline
         lb, ub, step = (get_constant_index(x) for x in (op.lb, op.ub, op.step))
